@@ -83,6 +83,13 @@ fn elem_expref(src: &mut Src, arr: &J, want_key: bool) -> (String, crate::refast
     // sometimes an arbitrary core expression as the reference: constants, multi-selects,
     // comparisons, projections (for by-functions most of them have the wrong key type,
     // which the model knows)
+    if !want_key && src.chance(50) {
+        // a reference that does not look at its element at all
+        let e = crate::gen_expr::gen_constant_expr(src, 0);
+        if let Ok(t) = crate::print::minimal_text(&e) {
+            return (format!("&{}", t), e);
+        }
+    }
     if src.chance(if want_key { 30 } else { 110 }) {
         let o = crate::gen_expr::ExprOpts { max_depth: 2, extremes: false, step_zero: false, ..crate::gen_expr::ExprOpts::default() };
         let e = crate::gen_expr::gen_expr(src, 0, first.as_ref(), &o);
